@@ -79,3 +79,38 @@ package table
 //@     assert [C08,C13:stored-crc-follows-block-and-type] n == bh.length + 1 && checksum0 == le32(data, int(bh.length) + 1) && len(data) == int(bh.length) + 5
 //@   at before call (*Reader).newErrCorruptedBH#1
 //@     assert [C08,C13:rejected-only-on-mismatch] checksum0 != checksum1 && checksum1 == blockcrc(bytes(data[:int(bh.length)+1]))
+
+// ---------------------------------------------------------------------------
+// C06 / C13: the table writer accepts keys only in strictly increasing order of the table's comparer and
+// remembers the last key it accepted (across data blocks).
+
+//@ spec func tcmp(a bytes, b bytes) int
+//@ interface comparer.Comparer.Compare
+//@   pure
+//@   ensures result == tcmp(a, b)
+
+//@ func (*blockWriter).append
+//@   props C06 C13
+//@   safety off
+//@   requires !sameblock(key, w.prevKey) && len(key) <= 1099511627776 && len(value) <= 1099511627776
+//@   ensures [C06,C13:remembers-key] err == nil ==> (w.prevKey == key && w.nEntries == old(w.nEntries) + 1)
+
+// Between the order check and the append of the accepted key, flushPendingBH only uses the remembered key (for the
+// index separator) and truncates it. That the remembered key is otherwise left alone between two appends - by
+// finishBlock, the filter writer and the index block, which own different buffers - is NOT proved here: the
+// separation of the writer's internal buffers is an assumption (trusted contracts, listed in the evidence).
+//@ func (*Writer).flushPendingBH
+//@   trusted
+//@   ensures [C06,C13:data-block-state-kept] base(w.dataBlock.prevKey) == old(base(w.dataBlock.prevKey)) && w.nEntries == old(w.nEntries)
+//@ func (*Writer).finishBlock
+//@   trusted
+//@   ensures [C06,C13:entry-count-kept] w.nEntries == old(w.nEntries)
+
+//@ func (*Writer).Append
+//@   props C06 C13
+//@   safety off
+//@   requires !sameblock(key, w.dataBlock.prevKey) && len(key) <= 1099511627776 && len(value) <= 1099511627776
+//@   ensures [C06,C13:strictly-increasing] (result == nil && old(w.nEntries) > 0) ==> tcmp(old(bytes(w.dataBlock.prevKey)), old(bytes(key))) < 0
+//@   ensures [C06,C13:counts-accepted-keys] result == nil ==> w.nEntries == old(w.nEntries) + 1
+//@   ensures [C06,C13:rejected-keys-not-counted] result != nil ==> w.nEntries == old(w.nEntries)
+//@ count (*Writer).Append
